@@ -1,7 +1,7 @@
 (* E-mode: extraction of the byte-level model for bulk correspondence runs.
    Only ExtrOcamlBasic is used; N, Z, positive and byte stay extracted datatypes. *)
 From Coq Require Import Extraction ExtrOcamlBasic.
-From DT Require Import Model.Bytes Model.EscURL Spec.DecURL.
+From DT Require Import Model.Bytes Model.EscURL Spec.DecURL Model.EscJSON Spec.DecJSON.
 
 Definition opt_bytes (o : option bytes) : option bytes := o.
 
@@ -10,7 +10,10 @@ Definition run_esc (fn : N) (itr : Z) (s : bytes) : option bytes :=
   match fn with
   | 1 => Some (mod_url_encode itr s)
   | 2 => Some (mod_link_escape itr s)
+  | 3 => Some (mod_json_escape itr s)
+  | 4 => Some (mod_json_quote s)
   | 101 => query_unescape s
+  | 102 => json_unquote s
   | _ => None
   end%N.
 
